@@ -143,7 +143,7 @@ mod dtrait {
         Val::new(format!("{name}({a})[{}]", parts.join(",")))
     }
 
-    #[unimock(api=DMock, unmock_with=[real_r0, _, real_u2(b, a), real_u3(self, b, a), _, _, _, _, _, _, real_mm, _, _, _])]
+    #[unimock(api=DMock, unmock_with=[real_r0, _, real_u2(b, a), real_u3(self, b, a), _, _, _, _, _, _, real_mm, _, _, _, _, _])]
     pub trait D {
         fn r0(&self, a: u8) -> Val;
         fn r1(&self, a: u8) -> Val;
@@ -176,6 +176,11 @@ mod dtrait {
         /// ... called (consuming the pointer) from a provided method with the same receiver
         fn p_rc2(self: Rc<Self>, a: u8) -> Val {
             Val::new(format!("dflt24({a})[{}]", self.r_rc(a).take()))
+        }
+        /// the same pair with Arc receivers
+        fn r_arc(self: Arc<Self>, a: u8) -> Val;
+        fn p_arc2(self: Arc<Self>, a: u8) -> Val {
+            Val::new(format!("dflt30({a})[{}]", self.r_arc(a).take()))
         }
         /// skipped by the macro, but occupies an unmock_with slot (last, so that nothing in this trait
         /// depends on how slots after a skipped function are counted; trait T covers that)
